@@ -63,6 +63,8 @@ def run(ctx: Ctx) -> None:
     for key, what, ln in found:
         ctx.violation("C16.6/restore-exact", key, what, f"{EMU}:{ln}")
     ctx.instance("C16.6/restore-exact", "load_snapshot restores saved timer targets unconditionally and unchanged", nn, 2)
+    save_exact(ctx, py)
+    live_sources(ctx, py)
 
 
 # ---------------------------------------------------------------------------
@@ -577,3 +579,61 @@ def save_completeness(ctx: Ctx, py: PyProgram) -> None:
             ctx.violation("C16.7/storage-cover", key_of("pce500/memory.py", "PCE500Memory", f"{st} not in the snapshot"),
                           f"{st} is written by a CPU store handler but neither export_flat_memory nor save_snapshot reads it: its contents are lost by save + load", f"pce500/memory.py:{ln}")
     ctx.instance("C16.7/save-completeness", "per-entry save loops store every entry; flattened image copies overlay payloads through the last window byte", n, 2)
+
+
+# ---------------------------------------------------------------------------
+_CASTS = {"bool", "int", "list", "dict", "str", "tuple", "bytes", "float"}
+
+
+def _state_fields(e: ast.AST, defs: dict, depth: int = 0) -> tuple[set[str], list[str]]:
+    """(state fields the value is read from, operators that combine/alter values) with locals resolved."""
+    fields: set[str] = set()
+    ops: list[str] = []
+    for n in ast.walk(e):
+        if isinstance(n, (ast.BoolOp, ast.BinOp, ast.Compare, ast.UnaryOp)):
+            ops.append(type(n).__name__ + ":" + unparse(n)[:60])
+        if isinstance(n, ast.Call) and isinstance(n.func, ast.Name) and n.func.id == "getattr" and len(n.args) >= 2 and attr_chain(n.args[0]) == "self" and isinstance(n.args[1], ast.Constant):
+            fields.add("self." + str(n.args[1].value))
+        if isinstance(n, ast.Attribute):
+            ch = attr_chain(n)
+            if ch and ch.startswith("self.") and ch.count(".") == 1:
+                fields.add(ch)
+        if isinstance(n, ast.Name) and n.id in defs and depth < 4 and n.id != "self":
+            for v in defs[n.id]:
+                f2, o2 = _state_fields(v, defs, depth + 1)
+                fields |= f2
+                ops += o2
+    return fields, ops
+
+
+def save_exact(ctx: Ctx, py: PyProgram) -> None:
+    """What save_snapshot records for the timer, interrupt and keyboard-metric latches is the field itself (through a cast or a default),
+    never a function of several pieces of state: a saver that filters or combines drops state the restored machine needs."""
+    fn = py.func(EMU, "PCE500Emulator.save_snapshot")
+    defs = py_defs(fn)
+    n = 0
+    for st in ast.walk(fn):
+        if isinstance(st, ast.Assign) and len(st.targets) == 1 and isinstance(st.targets[0], ast.Name) and st.targets[0].id in ("timer_info", "interrupts", "kb_metrics") and isinstance(st.value, ast.Dict):
+            for k, v in zip(st.value.keys, st.value.values):
+                if not isinstance(k, ast.Constant):
+                    continue
+                n += 1
+                fields, ops = _state_fields(v, defs)
+                if len(fields) != 1 or ops:
+                    ctx.violation("C16.6/save-exact", key_of(EMU, "PCE500Emulator.save_snapshot", f"{st.targets[0].id}[{k.value!r}]"),
+                                  f"save_snapshot records {st.targets[0].id}[{k.value!r}] as `{unparse(v)[:120]}`: {'it combines ' + ', '.join(sorted(fields)) if len(fields) != 1 else 'it is altered by ' + ops[0]} instead of storing the field itself, so the restored machine differs from the saved one whenever the extra condition is false",
+                                  f"{EMU}:{v.lineno}")
+    ctx.instance("C16.6/save-exact", "timer/interrupt/keyboard-metric entries written by save_snapshot are identity projections of one state field", n, 18)
+
+
+def live_sources(ctx: Ctx, py: PyProgram) -> None:
+    """The LCD state the saver captures comes from the chips themselves; a stored copy in the display layer must be dropped by every
+    function that changes chip state (reads advance the column pointer and clear BUSY too)."""
+    from ..memo import incoherent_copies
+    mods = [py.module(f) for f in ("pce500/display/pipeline.py", "pce500/display/controller_wrapper.py")]
+    for m in mods:
+        ctx.file_used(REPO / m.rel)
+    found, scanned = incoherent_copies(mods, py.module("pce500/display/hd61202.py"), "HD61202")
+    for rel, ln, what in found:
+        ctx.violation("C16.4/live-sources", key_of(rel, what.split(" changes ")[0], "stale stored copy"), what, f"{rel}:{ln}")
+    ctx.instance("C16.4/live-sources", "display-layer methods scanned for stored copies of chip state and their invalidation", scanned, 20)
